@@ -55,3 +55,26 @@ Theorem C11_last_downsampled_over_sources_refuted :
   q_asis 4 4 6 11 6 [[(9, 54)]; [(7, 50)]] 0 = Some 50 /\ q_ref 4 4 6 11 6 [(9, 54); (7, 50)] 0 = Some 54.
 Proof. exact last_downsampled_over_sources_refuted. Qed.
 Print Assumptions C11_last_downsampled_over_sources_refuted.
+
+(* ---- a statement that overlaps a flush of the data family (C11/Overlap.v) ---- *)
+From LinDBV.C11 Require Overlap.
+(* a query whose two reads (memory databases, then the files) are not separated by the flush's commit aggregates
+   exactly the values written before it started - whatever else (writes, swap, drop) happens in between and around *)
+Theorem C11_overlap_free_view pre mid post :
+  forallb (fun e => negb (Overlap.is_q e)) pre = true ->
+  forallb (fun e => negb (Overlap.is_commit e) && negb (Overlap.is_q e)) mid = true ->
+  exists view, Overlap.qview (Overlap.run Overlap.init (pre ++ [Overlap.EQMem] ++ mid ++ [Overlap.EQFile] ++ post)) = Some view /\
+               Overlap.qstart (Overlap.run Overlap.init (pre ++ [Overlap.EQMem] ++ mid ++ [Overlap.EQFile] ++ post)) = Some (Overlap.hist (Overlap.run Overlap.init pre)) /\
+               Permutation.Permutation view (Overlap.hist (Overlap.run Overlap.init pre)).
+Proof. exact (Overlap.overlap_free_view pre mid post). Qed.
+Print Assumptions C11_overlap_free_view.
+(* refuted for every overlap: with the commit between the two reads the flushed memory database counts twice *)
+Theorem C11_overlap_double_refuted :
+  Overlap.qview (Overlap.run Overlap.init [Overlap.EWrite 5; Overlap.EQMem; Overlap.ESwap; Overlap.ECommit; Overlap.EQFile]) = Some [5; 5] /\
+  Overlap.qstart (Overlap.run Overlap.init [Overlap.EWrite 5; Overlap.EQMem; Overlap.ESwap; Overlap.ECommit; Overlap.EQFile]) = Some [5] /\
+  Overlap.qview (Overlap.run Overlap.init [Overlap.EWrite 5; Overlap.ESwap; Overlap.EQMem; Overlap.ECommit; Overlap.EQFile; Overlap.EDrop]) = Some [5; 5] /\
+  Overlap.qview (Overlap.run Overlap.init [Overlap.EWrite 5; Overlap.ESwap; Overlap.ECommit; Overlap.EQMem; Overlap.EQFile; Overlap.EDrop]) = Some [5] /\
+  Overlap.qview (Overlap.run Overlap.init [Overlap.EWrite 5; Overlap.ESwap; Overlap.EQMem; Overlap.EQFile; Overlap.ECommit; Overlap.EDrop]) = Some [5] /\
+  Overlap.qview (Overlap.run Overlap.init [Overlap.EWrite 5; Overlap.ESwap; Overlap.ECommit; Overlap.EDrop; Overlap.EQMem; Overlap.EQFile]) = Some [5].
+Proof. exact Overlap.overlap_double_refuted. Qed.
+Print Assumptions C11_overlap_double_refuted.
